@@ -239,4 +239,60 @@ theorem emtLoop_split (G : List Nat) (first : Int) (zt : ZT) (s : EMT) (iLast1 i
           exact ihr
         · simp at h
 
+/-! ### shift: the loop on the retained buffer = the loop on the whole stream -/
+
+/-- shift the position component of a loop result from whole-stream to buffer indices -/
+def shiftRes (k : Int) (r : Int × Int × Int × Int × List Spec) : Int × Int × Int × Int × List Spec :=
+  (r.1 - k, r.2)
+
+theorem emtLoop_drop (G : List Nat) (k : Nat) (f0 : Int) (zt : ZT) (s : EMT) (iLast maxN : Int) :
+    ∀ (n : Nat) (iFirst t u v : Int) (acc : List Spec), (iLast + maxN + 2 - iFirst).toNat ≤ n →
+      1 ≤ iFirst → (s.enableZT = true → 4 ≤ iFirst) →
+      emtLoop (G.drop k) (f0 + k) zt s iLast maxN iFirst t u v acc =
+        (emtLoop G f0 zt s (k + iLast) maxN (k + iFirst) t u v acc).map (shiftRes k) := by
+  intro n
+  induction n with
+  | zero =>
+    intro iFirst t u v acc hn h1 h4
+    conv => lhs; rw [emtLoop]
+    conv => rhs; rw [emtLoop]
+    rw [findNext_drop G k f0 zt iFirst iLast s.threshold s.nmonotone maxN s.enableZT _ iFirst (Nat.le_refl _) h1 h4]
+    cases hx : findNext G f0 zt (k + iFirst) (k + iLast) s.threshold s.nmonotone maxN s.enableZT (k + iFirst) with
+    | none => rfl
+    | some x =>
+      simp only [Option.map_some, Found.shift]
+      by_cases hf : x.found = true
+      · simp only [hf, Bool.not_true, Bool.false_eq_true, if_false, if_true]
+        have g1 : ¬(iFirst < x.nextI - k ∧ x.nextI - k ≤ iLast + maxN + 1) := by omega
+        have g2 : ¬((k : Int) + iFirst < x.nextI ∧ x.nextI ≤ k + iLast + maxN + 1) := by omega
+        simp only [g1, g2, dite_false, Option.map_none]
+      · have hf' : x.found = false := by simpa using hf
+        simp only [hf', Bool.not_false, if_true, Option.map_some, shiftRes, Bool.false_eq_true, if_false]
+  | succ n ih =>
+    intro iFirst t u v acc hn h1 h4
+    conv => lhs; rw [emtLoop]
+    conv => rhs; rw [emtLoop]
+    rw [findNext_drop G k f0 zt iFirst iLast s.threshold s.nmonotone maxN s.enableZT _ iFirst (Nat.le_refl _) h1 h4]
+    cases hx : findNext G f0 zt (k + iFirst) (k + iLast) s.threshold s.nmonotone maxN s.enableZT (k + iFirst) with
+    | none => rfl
+    | some x =>
+      simp only [Option.map_some, Found.shift]
+      by_cases hf : x.found = true
+      · simp only [hf, Bool.not_true, Bool.false_eq_true, if_false, if_true]
+        by_cases g2 : (k : Int) + iFirst < x.nextI ∧ x.nextI ≤ k + iLast + maxN + 1
+        · have g1 : iFirst < x.nextI - k ∧ x.nextI - k ≤ iLast + maxN + 1 := by omega
+          simp only [g1, g2, and_self, dite_true]
+          have ihr := ih (x.nextI - k) u v (x.trig - k + (f0 + k))
+            (match shouldRecord u v (x.trig - k + (f0 + k)) s.npre s.nsamp s.mode with
+              | some sp => acc ++ [sp]
+              | none => acc) (by omega) (by omega) (fun he => by have := h4 he; omega)
+          rw [show (k : Int) + (x.nextI - k) = x.nextI by omega] at ihr
+          rw [show x.trig - (k : Int) + (f0 + k) = x.trig + f0 by omega] at ihr
+          rw [show x.trig - (k : Int) + (f0 + k) = x.trig + f0 by omega]
+          exact ihr
+        · have g1 : ¬(iFirst < x.nextI - k ∧ x.nextI - k ≤ iLast + maxN + 1) := by omega
+          simp only [g1, g2, dite_false, Option.map_none]
+      · have hf' : x.found = false := by simpa using hf
+        simp only [hf', Bool.not_false, if_true, Option.map_some, shiftRes, Bool.false_eq_true, if_false]
+
 end DastardV.Trig
